@@ -138,8 +138,44 @@ class _Records(ast.NodeTransformer):
         if node.returns is not None and ast.unparse(node.returns) in self.records:
             node.returns = None  # the annotation would name a class that the model no longer needs
         self.generic_visit(node)
+        self._explode(node)
         self.locals = saved
         return node
+
+    def _explode(self, func: ast.AST) -> None:
+        """``r = f(); ... r[0] ... r[2]`` with no other use of ``r`` becomes ``(r__0, r__1, r__2) = f(); ... r__0 ... r__2``."""
+        for name, record in self.locals.items():
+            if not record:
+                continue
+            width = len(self.records[record])
+            indexed = []
+            other_loads = 0
+            stores = []
+            for sub in ast.walk(func):
+                if isinstance(sub, ast.Subscript) and isinstance(sub.value, ast.Name) and sub.value.id == name and isinstance(sub.slice, ast.Constant) and isinstance(sub.slice.value, int) and isinstance(sub.ctx, ast.Load):
+                    indexed.append(sub)
+            indexed_names = {id(sub.value) for sub in indexed}
+            for sub in ast.walk(func):
+                if isinstance(sub, ast.Name) and sub.id == name:
+                    if isinstance(sub.ctx, ast.Store):
+                        stores.append(sub)
+                    elif id(sub) not in indexed_names:
+                        other_loads += 1
+            if other_loads or len(stores) != 1 or not indexed:
+                continue
+            assign = next((a for a in ast.walk(func) if isinstance(a, ast.Assign) and len(a.targets) == 1 and a.targets[0] is stores[0]), None)
+            if assign is None or isinstance(assign.value, ast.Tuple):
+                continue
+            assign.targets = [ast.copy_location(ast.Tuple(elts=[ast.copy_location(ast.Name(id=f"{name}__{i}", ctx=ast.Store()), stores[0]) for i in range(width)], ctx=ast.Store()), stores[0])]
+
+            class Replace(ast.NodeTransformer):
+                def visit_Subscript(self, node: ast.Subscript) -> ast.AST:
+                    self.generic_visit(node)
+                    if node in indexed and 0 <= node.slice.value < width:  # type: ignore[attr-defined]
+                        return ast.copy_location(ast.Name(id=f"{name}__{node.slice.value}", ctx=ast.Load()), node)  # type: ignore[attr-defined]
+                    return node
+
+            Replace().visit(func)
 
     visit_AsyncFunctionDef = visit_FunctionDef  # type: ignore[assignment]
 
